@@ -92,7 +92,7 @@ META = {
         "slot to one field independently of the values, so a run on pairwise distinct values that ends with every "
         "field equal shows that each field is wired to its own slot - for every value; a field that is not carried, "
         "or is carried to the wrong slot, differs from the default/neighbour because no sentinel equals a default or "
-        "another sentinel. Configuration branches are enumerated (one obligation per branch). Composite classes (MCMC, "
+        "another sentinel. Configuration branches (None-ness of optional components, list lengths, mass-matrix shape) are enumerated as variants inside each obligation. Composite classes (MCMC, "
         "HMCOperator, Optimizer, Scheduler) are verified modularly: their components are contract stand-ins that must "
         "receive exactly J(own state_dict()) (torchtree components) or exactly own state_dict() (torch objects, whose "
         "documented contract is 'load_state_dict takes what state_dict returned'). The iteration-counter clause runs the "
@@ -253,7 +253,14 @@ def _recipes(quals):
     import types
 
     R = []
-    R.append(Recipe(LeapfrogIntegrator, "", lambda mode, sent: _integrator()))
+    def warm_integrator(inst, n):
+        # the step size is only ever assigned from outside (HMCOperator.set_adaptable_parameter, adaptors): drive it
+        # through a real AdaptiveStepSize bound to this integrator
+        a = ad.AdaptiveStepSize("a", inst, 0.8)
+        for i in range(n):
+            a.learn(torch.tensor(0.3 + 0.04 * i), i + 1, True)
+
+    R.append(Recipe(LeapfrogIntegrator, "", lambda mode, sent: _integrator(), warm_integrator))
     R.append(Recipe(mo.ScalerOperator, "", lambda mode, sent: mo.ScalerOperator("op", _params(), 1.0, 0.24, 0.6), _warm_operator(True)))
     R.append(Recipe(mo.SlidingWindowOperator, "", lambda mode, sent: mo.SlidingWindowOperator("op", _params(), 1.0, 0.24, 0.4), _warm_operator(True)))
     R.append(Recipe(mo.DirichletOperator, "", lambda mode, sent: mo.DirichletOperator("op", [_P("freqs", [0.2, 0.3, 0.5])], 1.0, 0.24, 50.0), _warm_operator(True)))
@@ -654,8 +661,8 @@ def ob_must_fail(inner, what):
             if not e.confirmed:
                 raise Undecided("must-fail twin refuted but replay did not reproduce: %s" % e.detail)
             return {"backend": "heap-enum", "trivial": False, "statement": "must-fail twin refuted as required: " + e.detail[:160]}
-        raise Refuted("vacuity: the must-fail twin (%s) was NOT refuted - the round-trip obligation cannot detect this defect" % what,
-                      witness={"twin": what}, replay=None, confirmed=False)
+        # a failed guard says the checker is blind, not that the property is violated
+        raise Undecided("vacuity guard failed: the must-fail twin (%s) was NOT refuted - the round-trip obligation cannot detect this defect" % what)
     return fn
 
 
@@ -1335,7 +1342,7 @@ def ob_guard_discovery():
         found, recipes = _discover()
         concrete = [f for f in found if not f["abstract"]]
         if not concrete:
-            raise Refuted("vacuity: no class with a state_dict/load_state_dict pair was discovered", witness={}, replay=None, confirmed=False)
+            raise Undecided("vacuity guard failed: no class with a state_dict/load_state_dict pair was discovered")
         have = {r.cls for r in recipes}
         without = [f["qual"] for f in concrete if f["cls"] not in have]
         no_state = {}
@@ -1448,7 +1455,7 @@ def ob_guard_frames():
             changed.discard("iterations")  # set by the warm-up driver itself (configuration: run length), not by the class
             sizes[r.name + ("{%s}" % vl if vl else "")] = len(known)
             if not known:
-                raise Refuted("vacuity: empty frame for %s" % r.name, witness={"class": r.name}, replay=None, confirmed=False)
+                raise Undecided("vacuity guard failed: empty frame for %s" % r.name)
             for k in sorted(changed - known):
                 missed.append("%s.%s changed during the real warm-up but is not in the AST frame" % (r.name, k))
         if missed:
@@ -1502,7 +1509,7 @@ def obligations(tier, seed):
         d = json.loads(json.dumps(t, cls=TensorEncoder))
         back = torch.tensor(d["values"])
         if not sh.same(t, back):
-            raise Refuted("vacuity: typed equality does not see a lost dtype", witness={}, replay=None, confirmed=False)
+            raise Undecided("vacuity guard failed: typed equality does not see a lost dtype")
         return {"backend": "enum", "statement": "a decoder that drops the dtype is detected: %s" % sh.same(t, back)}
     obs.append(Ob("C17.vacuity.codec_dtype", "V", lossy_decoder_twin, clause="vacuity", funcs=funcs))
     return obs
